@@ -947,6 +947,13 @@ func driveAggKernel(r *rand.Rand, w *bufio.Writer, id int, cv *coverOut) {
 				shapes[i] = stackedShape(r, iset{span{key<<16 + uint64(r.Intn(30000)), key<<16 + uint64(30000+r.Intn(100))}}, key)
 			}
 			shapes[j] = stackedShape(r, shapes[i], key)
+			if r.Intn(2) == 0 { // the third input holds nothing under this key: no later step revisits (and repairs) the pair's chunk
+				k3 := 3 - i - j
+				shapes[k3] = iset{}
+				if key < 0xFFFF && r.Intn(2) == 0 {
+					shapes[k3] = edgeShape(r, key+1)
+				}
+			}
 		}
 		var err error
 		u, err = vennUniverse(32, []uint64{key << 16, (key + 1) << 16}, shapes[:])
